@@ -181,6 +181,11 @@ def run(check, repo: Repo) -> None:
     ok = len(acc) == 1 and isinstance(acc[0].op, ast.Add) and "np.bincount(inds_1D, weights=weights" in unparse(acc[0].value)
     check.decide(ok, "C15-R3", "bilinear_kde: the count map accumulates exactly the bilinear weights", "", imod.line(kde),
                  fail_detail="pix_count is not accumulated as bincount(inds_1D, weights=weights)")
+    # ---- R4 borrowed rule instances: the NumPy registration helper behind align_translation (C13's rules on cross_correlation_shift / dft_upsample) ----
+    from ..core.report import SubCheck
+    from . import c13
+    c13.run(SubCheck(check, "C15-R4", keep=lambda construct, where: construct.startswith(("cross_correlation_shift", "dft_upsample", "parabolic_peak", "_max_shift_mask"))
+                     and "torch" not in construct.split(":")[0]), repo)
 
 
 def _knot_placement(check, mod, pre) -> None:
